@@ -2,11 +2,13 @@
 
 Streams (model `Wpull.Request` vs the real code in the repo under test):
   prep     Request(url).prepare_for_send(full_url).to_bytes()      function level: generated URLs x proxy/no proxy x fields
+  prep2    prepare_for_send called twice with different full_url (as _process_redirect + Stream.write_request do)
   names    str.title / str.capitalize on field names; basic-auth text; hostname_with_port / URLInfo.url
   referer  WebProcessorSession._populate_common_request (referrer suppression https -> http)
   session  lock-step co-simulation of hop sequences: the REAL WebSession + http Client + Stream + ConnectionPool
            + CookieJarWrapper + DeFactoCookiePolicy + RedirectTracker over harness/fakenet.py, answering from
-           generated redirect scripts; the bytes each fake server receives per hop vs the model's
+           generated redirect scripts; the bytes each fake server receives per hop vs the model's;
+           the same through the REAL HTTPProxyConnectionPool (http chains): absolute-form target on EVERY hop
 Direct oracle (independent of the model) on every real request head: one request line with exactly two SP,
 field lines, blank line, no bare CR/LF, target = path?query (absolute URL with a proxy), exactly one Host equal to
 host[:non-default port] of the hop URL and of the host actually connected to, credentials and cookies only
@@ -115,6 +117,27 @@ def stream_prep(ctx, cases):
         ctx.sample({'stream': 'prep', 'url': meta[0][0], 'fields': meta[0][3], 'full_url': meta[0][4]})
 
 
+def stream_prep2(ctx, cases):
+    """prepare_for_send called twice with (possibly) different full_url: the last call decides"""
+    lines, meta = [], []
+    for url, method, version, pairs, f1, f2 in cases:
+        kind, info = rc.parse_url(url)
+        if kind != 'url':
+            continue
+        lines.append(rc.prep2_line(rc.urlc(info), method, version, pairs, f1, f2))
+        meta.append((url, method, version, pairs, f1, f2, info))
+    replies = ctx.model.ask(lines)
+    for (url, method, version, pairs, f1, f2, info), rep in zip(meta, replies):
+        case = {'stream': 'prep2', 'url': url, 'method': method, 'version': version, 'pairs': pairs, 'full1': f1, 'full2': f2}
+        k, val, _req = rc.real_prep2(url, method, version, pairs, f1, f2)
+        real = ('ok ' + enc(val)) if k == 'ok' else ('exc ' + val)
+        ctx.case(('prep2', url, method, version, tuple(pairs), f1, f2), tags=['prep2:%s->%s' % ('full' if f1 else 'origin', 'full' if f2 else 'origin')])
+        if real != rep:
+            ctx.disagree('prep2', case, rep, real)
+        if k == 'ok' and values_clean(pairs):
+            check_head(ctx, case, val, info, f2, pairs, 'Request.prepare_for_send-twice')
+
+
 # ------------------------------------------------------------------ names / auth / hostport / referer
 def stream_small(ctx, rng, n):
     from wpull.url import URLInfo
@@ -126,16 +149,32 @@ def stream_small(ctx, rng, n):
         ctx.case(('title', s), nontrivial=bool(s), tags=['names:title'])
         if real != rep:
             ctx.disagree('names', {'stream': 'title', 'name': s}, rep, real)
-    creds = [(rc.gen_value(rng, True), rc.gen_value(rng, True)) for _ in range(n)]
-    creds += [('u', 'p'), ('', ''), ('é', '€'), ('\udc80', 'x'), ('a:b', 'c')]
+    from wpull.protocol.http.web import WebSession
+    from wpull.protocol.http.request import Request as _Request
+    import urllib.parse as _up
+    creds = [(rc.gen_value(rng, True) or 'u', rc.gen_value(rng, True) or 'p') for _ in range(n)]
+    creds += [(_up.unquote(rc.gen_long_cred(rng, 20, 150)), _up.unquote(rc.gen_long_cred(rng, 20, 150))) for _ in range(n // 3 + 5)]
+    creds += [('u', 'p'), ('é', '€'), ('\udc80', 'x'), ('a:b', 'c'), ('u' * 40, 'p' * 17), ('u' * 40, 'p' * 16), ('x' * 200, 'y' * 200)]
     reps = ctx.model.ask(['request auth %s %s' % (enc(u), enc(p)) for u, p in creds])
     for (u, p), rep in zip(creds, reps):
-        real = 'Basic ' + base64.b64encode('{}:{}'.format(u, p).encode('utf-8', 'replace')).decode('utf-8')
-        ctx.case(('auth', u, p), tags=['names:auth'])
+        # the REAL WebSession._add_basic_auth_header on a request with that login
+        req = _Request('http://h.example/')
+        req.username, req.password = u, p
+        WebSession._add_basic_auth_header(types.SimpleNamespace(), req)
+        real = req.fields.get('Authorization') or ''
+        ctx.case(('auth', u, p), tags=['names:auth', 'names:auth-long' if len(u) + len(p) >= 57 else 'names:auth-short'])
+        case = {'stream': 'auth', 'user': u, 'password': p}
         if enc(real) != rep:
-            ctx.disagree('names', {'stream': 'auth', 'user': u, 'password': p}, rep, enc(real))
+            ctx.disagree('names', case, rep, enc(real))
         if '\r' in real or '\n' in real:
-            ctx.fail('request-shape', '_add_basic_auth_header', {'stream': 'auth', 'user': u, 'password': p}, 'line break in %r' % real)
+            ctx.fail('request-shape', '_add_basic_auth_header', case, 'line break inside the Authorization value %r' % real)
+        want = '{}:{}'.format(u, p).encode('utf-8', 'replace')
+        try:
+            got = base64.b64decode(real[6:], validate=True) if real.startswith('Basic ') else None
+        except Exception:
+            got = None
+        if got != want:
+            ctx.fail('credentials-garbled', '_add_basic_auth_header', case, 'Authorization %r does not decode to the credentials' % real[:120])
     urls = [rc.gen_url(rng) for _ in range(n)]
     infos = [(u, rc.parse_url(u)) for u in urls]
     infos = [(u, i) for u, (k, i) in infos if k == 'url']
@@ -148,23 +187,40 @@ def stream_small(ctx, rng, n):
         if i.hostname_with_port != rc.expected_host(i):
             ctx.fail('host-mismatch', 'URLInfo.hostname_with_port', {'stream': 'hostport', 'url': u},
                      '%r vs %r' % (i.hostname_with_port, rc.expected_host(i)))
-    # referrer handling of the processor
-    from wpull.processor.web import WebProcessorSession
-    from wpull.protocol.http.request import Request
+    stream_referer(ctx, gen_referer_cases(rng, n))
+
+
+def gen_referer_cases(rng, n):
     cases = []
     for _ in range(n):
         k, child = rc.parse_url(rc.gen_url(rng, simple=True))
-        k2, parent = rc.parse_url(rc.gen_url(rng))
+        if rng.random() < 0.4:
+            purl = 'http%s://pu%d:%s@%s/dir/page?x=1' % (rng.choice(['', 's']), rng.randrange(100), rng.choice(['secret', 'pw%40x', 'p%3Aq']) + str(rng.randrange(1000)),
+                                                         rng.choice(CHAIN_HOSTS[:6]))
+        else:
+            purl = rc.gen_url(rng)
+        k2, parent = rc.parse_url(purl)
         if k != 'url' or k2 != 'url':
             continue
         pre = rng.choice([None, None, '', 'http://preset.example/'])
-        cases.append((child, rng.choice([parent.url, parent.url, None, '']), pre))
+        cases.append({'stream': 'referer', 'child': child.url, 'parent': rng.choice([parent.url, parent.url, parent.url, None, '']), 'preset': pre})
+    return cases
+
+
+def stream_referer(ctx, cases):
+    """WebProcessorSession._populate_common_request: referrer of a child request from the parent URL of the record"""
+    from wpull.processor.web import WebProcessorSession
+    from wpull.protocol.http.request import Request
+    from wpull.url import URLInfo
     lines = []
-    for child, parent, pre in cases:
-        pairs = [('User-Agent', 'ua')] + ([('Referer', pre)] if pre is not None else [])
-        lines.append('request referer %s %s %s' % (rc.fields_token(pairs), enc(parent or ''), enc(child.scheme)))
+    for c in cases:
+        child = URLInfo.parse(c['child'])
+        pairs = [('User-Agent', 'ua')] + ([('Referer', c['preset'])] if c['preset'] is not None else [])
+        lines.append('request referer %s %s %s' % (rc.fields_token(pairs), enc(c['parent'] or ''), enc(child.scheme)))
     reps = ctx.model.ask(lines)
-    for (child, parent, pre), rep in zip(cases, reps):
+    for c, rep in zip(cases, reps):
+        child = URLInfo.parse(c['child'])
+        parent, pre = c['parent'], c['preset']
         req = Request(child.url)
         req.fields['User-Agent'] = 'ua'
         if pre is not None:
@@ -178,28 +234,44 @@ def stream_small(ctx, rng, n):
         for nme, v in req.fields.get_all():
             flat += [nme, v]
         real = rc.enc_lists(flat)
-        ctx.case(('referer', child.url, parent, pre), tags=['referer:' + ('set' if req.fields.get('Referer') else 'none')])
-        if real != rep:
-            ctx.disagree('referer', {'stream': 'referer', 'child': child.url, 'parent': parent, 'preset': pre}, rep, real)
         ref = req.fields.get('Referer')
+        pinfo = URLInfo.parse(parent) if parent else None
+        tags = ['referer:' + ('set' if ref else 'none')]
+        if pinfo is not None and (pinfo.username or pinfo.password):
+            tags.append('referer:parent-with-userinfo')
+        ctx.case(('referer', child.url, parent, pre), tags=tags)
+        if real != rep:
+            ctx.disagree('referer', c, rep, real)
         if ref and (parent or '').startswith('https://') and child.scheme == 'http' and ref == parent:
-            ctx.fail('referrer-leak', '_add_referrer', {'stream': 'referer', 'child': child.url, 'parent': parent},
-                     'https referrer sent to http URL')
-
+            ctx.fail('referrer-leak', '_add_referrer', c, 'https referrer sent to http URL')
+        if ref and not pre and pinfo is not None and (pinfo.username or pinfo.password):
+            # credentials of the referring page's host must not travel in ANY field to the linked host
+            netloc = urllib.parse.urlsplit(ref).netloc
+            secrets = [x for x in (pinfo.password, pinfo.username) if x]
+            from wpull.url import normalize_password, normalize_username
+            forms = set(secrets) | {normalize_password(x) for x in secrets} | {normalize_username(x) for x in secrets}
+            # short secrets ('p') occur in host names by chance: judge those by the authority only
+            if '@' in netloc or any(len(f) >= 5 and f in ref for f in forms):
+                ctx.fail('cross-host-credentials', '_add_referrer', c,
+                         'Referer %r (request to %s) carries the user-info of the referring page %r' % (ref, child.hostname_with_port, parent))
 
 # ------------------------------------------------------------------ session
 CHAIN_HOSTS = ['a.example', 'b.example', 'sub.a.example', 'c.test', '10.0.0.5', '[::1]', 'a.example:8080', 'b.example:81']
 
 
-def gen_location(rng, uid):
-    """a Location value (bytes) or None"""
+def gen_location(rng, uid, http_only=False):
+    """a Location value (bytes) or None; http_only: never an https target (proxy runs: no CONNECT/TLS over fakenet)"""
     r = rng.random()
+    if http_only and 0.73 <= r < 0.85:
+        r = 0.1
     if r < 0.45:
         host = rng.choice(CHAIN_HOSTS)
-        scheme = rng.choice(['http', 'http', 'https'])
+        scheme = 'http' if http_only else rng.choice(['http', 'http', 'https'])
         ui = ''
         if rng.random() < 0.2:
             ui = 'lu%d:lp%d@' % (uid, uid)
+            if rng.random() < 0.4:
+                ui = 'lu%d%s:lp%d%s@' % (uid, rc.gen_long_cred(rng, 20, 90), uid, rc.gen_long_cred(rng, 20, 90))
         return ('%s://%s%s/p%d%s' % (scheme, ui, host, uid, rng.choice(['', '?k=%d' % uid, '/x y', '/%0D%0AHost:%20evil']))).encode()
     if r < 0.65:
         return rng.choice(['/r%d', 'rel%d', '?q=%d', '../up%d', './%d', '/a b/%d', '/é%d']) .__mod__(uid).encode('latin-1')
@@ -211,18 +283,18 @@ def gen_location(rng, uid):
         return None
     return rng.choice([b'', b' ', b'http://[', b'http://', b'http://h:99999/', b'http://h:x/', b'mailto:x@y', b'ftp://f.example/z',
                        b'http:// sp ace/', b'javascript:void(0)', b'\xff\xfe', b'http://exa mple.test/a b', b'#frag', b'http://a.example:80/d',
-                       b'https://a.example:443/d', b'HTTP://A.EXAMPLE/Up'])
+                       b'http://a.example:443/d' if http_only else b'https://a.example:443/d', b'HTTP://A.EXAMPLE/Up'])
 
 
-def gen_script(rng, hostile_tail=False):
+def gen_script(rng, http_only=False):
     n = rng.choice([0, 1, 1, 2, 2, 3, 4, 5, 6, 8])
     replies = []
     for k in range(n):
         r = rng.random()
         if r < 0.12:
-            rep = {'status': 401, 'location': None if rng.random() < 0.8 else gen_location(rng, k)}
+            rep = {'status': 401, 'location': None if rng.random() < 0.8 else gen_location(rng, k, http_only)}
         else:
-            rep = {'status': rng.choice([301, 302, 303, 307, 307, 308, 308]), 'location': gen_location(rng, k)}
+            rep = {'status': rng.choice([301, 302, 303, 307, 307, 308, 308]), 'location': gen_location(rng, k, http_only)}
         rep['cookies'] = []
         if rng.random() < 0.35:
             c = 'ck%d=v%d' % (k, rng.randrange(1000))
@@ -239,11 +311,15 @@ def gen_script(rng, hostile_tail=False):
     return replies
 
 
-def gen_chain_case(rng):
+def gen_chain_case(rng, proxy=False):
     url = rc.gen_url(rng, hosts=CHAIN_HOSTS[:6], simple=True)
+    if proxy and url.startswith('https://'):
+        url = 'http://' + url[len('https://'):]
     login = None
     if rng.random() < 0.4:
         login = ('GU', 'GP')
+        if rng.random() < 0.4:
+            login = ('GU' + urllib.parse.unquote(rc.gen_long_cred(rng, 20, 100)), 'GP' + urllib.parse.unquote(rc.gen_long_cred(rng, 20, 100)))
     method, body = 'GET', None
     if rng.random() < 0.15:
         method = 'POST'      # no body: a replayed body is the wire engine's business (C08), the method is what matters here
@@ -256,8 +332,21 @@ def gen_chain_case(rng):
     if rng.random() < 0.1:
         factory.append(('X-Multi', 'one'))
         factory.append(('X-Multi', 'two'))
-    return {'stream': 'session', 'url': url, 'replies': gen_script(rng), 'max_redirects': rng.choice([0, 1, 2, 3, 5, 20, 20]),
-            'use_jar': rng.random() < 0.75, 'login': login, 'method': method, 'body': body, 'extra': extra, 'factory': factory}
+    replies = gen_script(rng, http_only=proxy)
+    use_jar = rng.random() < 0.75
+    max_redirects = rng.choice([0, 1, 2, 3, 5, 20, 20])
+    if rng.random() < 0.12:
+        # aimed at state that sticks to the ORIGINAL request object: a 401 that sets a cookie (the retry then carries
+        # Cookie + Authorization), followed by a 307/308 replay to another host, and back
+        login = login or ('GU', 'GP')
+        use_jar = True
+        max_redirects = 20
+        other = rng.choice(['b.example', 'c.test', 'sub.a.example', '[::1]'])
+        replies = [{'status': 401, 'location': None, 'cookies': [b'ckA=v%d' % rng.randrange(1000)], 'mode': 'resp'},
+                   {'status': rng.choice([307, 308]), 'location': ('http://%s/t%d' % (other, rng.randrange(100))).encode(),
+                    'cookies': [b'ckB=v%d' % rng.randrange(1000)] if rng.random() < 0.5 else [], 'mode': 'resp'}] + replies
+    return {'stream': 'session', 'url': url, 'proxy': proxy, 'replies': replies, 'max_redirects': max_redirects,
+            'use_jar': use_jar, 'login': login, 'method': method, 'body': body, 'extra': extra, 'factory': factory}
 
 
 def cookie_owner_ok(req_host, set_host, domain_attr):
@@ -298,7 +387,7 @@ def check_session_case(ctx, case):
     m_out, m_last, m_hops = rc.parse_session_reply(rep)
     real_heads = [h[2] for h in res['hops']]
     codes = [r.get('status') for r in replies[:len(res['hops'])]]
-    tags = ['session:hops=%d' % min(len(res['hops']), 9), 'session:' + res['outcome']]
+    tags = ['session:hops=%d' % min(len(res['hops']), 9), 'session:' + res['outcome'], 'session:proxy' if case.get('proxy') else 'session:direct']
     for c in set(codes):
         if c in rc.REDIRECT_CODES:
             tags.append('session:code=%d' % c)
@@ -321,7 +410,7 @@ def check_session_case(ctx, case):
     cookie_src = {}
     userinfo_src = {}
     if info0.username or info0.password:
-        userinfo_src[(info0.username or '', info0.password or '')] = rc.expected_host(info0)
+        userinfo_src.setdefault((info0.username or '', info0.password or ''), set()).add(rc.expected_host(info0))
     for k, (host, port, head, body) in enumerate(res['hops']):
         problems, method, target, version, fields = rc.split_request(head)
         where = 'WebSession.hop'
@@ -332,10 +421,29 @@ def check_session_case(ctx, case):
         name = '[%s]' % host if ':' in host else host
         if len(hvals) != 1:
             ctx.fail('host-count', where, case, 'hop %d: Host fields %r' % (k, hvals))
+        elif case.get('proxy'):
+            # every hop goes to the proxy: the target must be the absolute URL of the hop (first request,
+            # follow-up, 307/308 replay or authentication retry alike) and Host must name that URL's host
+            t = target.decode('latin-1')
+            base = res['bases'][k] if k < len(res['bases']) else None
+            if (host, port) != ('proxy.test', 3128):
+                ctx.fail('target-mismatch', where, case, 'hop %d bypassed the proxy: sent to %s:%d' % (k, host, port))
+            elif not t.startswith('http://') or (base is not None and t != base) or (k == 0 and t != info0.url):
+                ctx.fail('target-mismatch', where, case,
+                         'hop %d through the proxy has target %r, URL being fetched %r (head %r)' % (k, t, base if base else info0.url, head[:200]))
+            else:
+                netloc = urllib.parse.urlsplit(t).netloc.rpartition('@')[2]
+                if hvals[0] != netloc:
+                    ctx.fail('host-mismatch', where, case, 'hop %d target %r carries Host %r' % (k, t, hvals[0]))
         elif hvals[0] not in (name, '%s:%d' % (name, port)) or (hvals[0] == name and port not in (80, 443)):
             ctx.fail('host-mismatch', where, case, 'hop %d sent to %s:%d carries Host %r (head %r)' % (k, host, port, hvals[0], head[:200]))
         if not case.get('proxy') and not target.startswith(b'/'):
             ctx.fail('target-mismatch', where, case, 'hop %d target %r' % (k, target))
+        if not case.get('proxy') and k < len(res['bases']) and res['bases'][k]:
+            sp = urllib.parse.urlsplit(res['bases'][k])
+            want = sp.path + ('?' + sp.query if sp.query else '')
+            if target.decode('latin-1') != want:
+                ctx.fail('target-mismatch', where, case, 'hop %d target %r, URL being fetched %r' % (k, target, res['bases'][k]))
         # credentials
         for n, v in fields:
             if n.lower() == 'authorization':
@@ -343,13 +451,13 @@ def check_session_case(ctx, case):
                 ok_sources = set()
                 if login:
                     ok_sources.add(login)
-                here = [ui for ui, h in userinfo_src.items() if h == (hvals[0] if hvals else None)]
+                here = [ui for ui, hs in userinfo_src.items() if (hvals[0] if hvals else None) in hs]
                 for ui in here:
                     ok_sources.add(ui)
                     if login:
                         ok_sources.add((ui[0] or login[0], ui[1] or login[1]))
-                if up not in ok_sources:
-                    owner = userinfo_src.get(up)
+                if up not in {'%s:%s' % src for src in ok_sources}:
+                    owner = [sorted(hs) for ui, hs in userinfo_src.items() if '%s:%s' % ui == up]
                     ctx.fail('cross-host-credentials', where, case,
                              'hop %d to %s carries credentials %r that belong to %r (head %r)' % (k, hvals, up, owner, head[:300]))
             if n.lower() == 'cookie':
@@ -378,7 +486,7 @@ def check_session_case(ctx, case):
                     tgt_host = ('[%s]' % c['hostname'] if c['ipv6'] else c['hostname'])
                     if c['port'] != {'http': 80, 'https': 443}[c['scheme']]:
                         tgt_host += ':%d' % c['port']
-                    userinfo_src.setdefault((c['username'], c['password']), tgt_host)
+                    userinfo_src.setdefault((c['username'], c['password']), set()).add(tgt_host)      # the same text may be given for several hosts
     ctx.sample({'stream': 'session', 'url': case['url'], 'statuses': codes, 'outcome': res['outcome'], 'hops': len(res['hops'])})
 
 
@@ -398,9 +506,13 @@ def replay(ctx, case, kind=None, where=None):
     s = case.get('stream')
     if s == 'prep':
         stream_prep(ctx, [(case['url'], case['method'], case['version'], [tuple(p) for p in case['pairs']], case['full'])])
+    elif s == 'prep2':
+        stream_prep2(ctx, [(case['url'], case['method'], case['version'], [tuple(p) for p in case['pairs']], case['full1'], case['full2'])])
     elif s == 'session':
         check_session_case(ctx, case)
-    elif s in ('title', 'auth', 'hostport', 'referer'):
+    elif s == 'referer':
+        stream_referer(ctx, [case])
+    elif s in ('title', 'auth', 'hostport'):
         stream_small(ctx, ctx.subrng('replay'), 50)
     else:
         raise Infra('unknown replay stream %r' % s)
@@ -433,10 +545,17 @@ def run(ctx):
         for full in (False, True):
             cases.append((u, 'GET', 'HTTP/1.1', [('User-Agent', 'x')], full))
     stream_prep(ctx, cases)
+    p2rng = ctx.subrng('prep2')
+    stream_prep2(ctx, [(rc.gen_url(p2rng), 'GET', 'HTTP/1.1', gen_pairs(p2rng, False), p2rng.random() < 0.5, p2rng.random() < 0.5)
+                       for _ in range(ctx.scale(800, 20000))]
+                 + [(u, 'GET', 'HTTP/1.1', [('User-Agent', 'x')], f1, f2) for u in fixed[:6] for f1 in (False, True) for f2 in (False, True)])
     stream_small(ctx, ctx.subrng('small'), ctx.scale(300, 6000))
     srng = ctx.subrng('session')
     for _ in range(ctx.scale(600, 18000)):
         check_session_case(ctx, gen_chain_case(srng))
+    prng = ctx.subrng('session-proxy')
+    for _ in range(ctx.scale(250, 6000)):
+        check_session_case(ctx, gen_chain_case(prng, proxy=True))
     ctx.exhaustive = False
 
 
